@@ -382,7 +382,7 @@ pub fn main() {
         Report {
             prop: PROP,
             level: "exploration",
-            rule: "type-level instantiation of every N in 0..=12 with every K <= N (split: owned, & and &mut forms), every (N, M) with N + M <= 12 (concat), 20 + 17 boundary pairs up to 1024, append/prepend/pop_back/pop_front on 25 lengths up to 1024, remove/swap_remove with every index 0..=N+1 and usize::MAX; element kinds of size 0, 1, 8, 24 and 72 bytes, 32-byte-aligned, drop-tracked and zero-sized tracked; seeded values. \
+            rule: "type-level instantiation of every N in 0..=12 with every K <= N (split: owned, & and &mut forms), every (N, M) with N + M <= 12 (concat), 25 + 21 boundary pairs up to 4096, append/prepend/pop_back/pop_front on 30 lengths up to 10000, remove/swap_remove with every index 0..=N+1 (N <= 12; a spread incl. 0, 1, N/4, N/2, N-1, N, N+1 beyond) and usize::MAX; element kinds of size 0, 1, 8, 24 and 72 bytes, 32-byte-aligned, drop-tracked and zero-sized tracked; seeded values. \
                    Oracle: a Vec with the same contents (push, insert(0), pop, remove(0), split_at, extend, remove, swap_remove) - elements, order, identities of tracked elements and the removed value; out-of-range indices must panic with every element dropped exactly once; by-reference split halves must be at byte offsets 0 and K*size_of::<T>() of the source with lengths K and N-K, and writes through the &mut halves must land in the source. \
                    non-trivial = a zero-length operand / edge pivot, an out-of-range index, or a zero-sized or drop-tracked element kind; distinct = distinct (kind, operation instance, values)",
             exhaustive: false,
